@@ -533,7 +533,10 @@ impl<'a, R: AsyncRead + Unpin, W: AsyncWrite + Unpin> Request<'a, R, W> {
                 return Poll::Ready(Ok(status.stream));
             }
 
-            // Both stream and protocol data buffers are empty here
+            // Both stream and protocol data buffers are empty here. Send out any
+            // replies produced by the parser above before waiting for more input,
+            // the client may be waiting for them in turn.
+            ready!(Pin::new(&mut *this).poll_output(cx))?;
             this.parser.compress();
             let buf = this.parser.input_buffer();
             read = ready!(Pin::new(&mut this.input).poll_read(cx, buf))?;
